@@ -4,6 +4,7 @@ import (
 	"rare/pkg/expressions"
 	"rare/pkg/expressions/stdlib"
 	"rare/pkg/minijson"
+	"sort"
 	"strconv"
 	"strings"
 )
@@ -12,6 +13,7 @@ type SliceSpaceExpressionContext struct {
 	linePtr   string
 	indices   []int
 	nameTable map[string]int
+	names     []string // keys of nameTable in group order (built on first use)
 	source    string
 	lineNum   uint64
 }
@@ -57,8 +59,8 @@ func (s *SliceSpaceExpressionContext) json(named, numbered bool) string {
 	jb.OpenEx(len(s.nameTable) * 50)
 
 	if named {
-		for name, idx := range s.nameTable {
-			jb.WriteInferred(name, s.GetMatch(idx))
+		for _, name := range s.orderedNames() {
+			jb.WriteInferred(name, s.GetMatch(s.nameTable[name]))
 		}
 	}
 	if numbered {
@@ -72,6 +74,21 @@ func (s *SliceSpaceExpressionContext) json(named, numbered bool) string {
 	jb.Close()
 
 	return jb.String()
+}
+
+// orderedNames returns the group names in group order. Ranging over the name
+// table directly would order the members differently from call to call
+func (s *SliceSpaceExpressionContext) orderedNames() []string {
+	if s.names == nil {
+		s.names = make([]string, 0, len(s.nameTable))
+		for name := range s.nameTable {
+			s.names = append(s.names, name)
+		}
+		sort.Slice(s.names, func(i, j int) bool {
+			return s.nameTable[s.names[i]] < s.nameTable[s.names[j]]
+		})
+	}
+	return s.names
 }
 
 func (s *SliceSpaceExpressionContext) array() string {
